@@ -22,7 +22,13 @@ static void build(vf::Plan &plan, const vf::Opts &o)
     defl.all_modes = false;
     deflprim.all_modes = false;
     deflprim.primary_only = true;
+    // the ASan+UBSan build of the thorough tier runs the quick bounds (~8x slower per case); the plain build the large ones
+#ifdef VF_ASAN
+    bool T = false;
+    (void)o;
+#else
     bool T = o.thorough();
+#endif
 #ifdef VF_DEFAULT_ONLY
     // configuration dimension: calls without a mode argument under the other ST_DEFAULT_VALIDATION settings
     add_seq_stage(plan, strf("default-mode calls: A8^<=%u", T ? 5u : 4u), ref::E8, A8, T ? 5 : 4, false, defl);
